@@ -823,4 +823,42 @@ theorem expandCheck_iff_expandCase (limit : Nat) (c : EchoLoad.Case) (ds : List 
 example : dirOf 204800 ⟨10, 0, some 5⟩ = .fits ∧ dirOf 204800 ⟨10, 0, some (-300000)⟩ = .misfit ∧ dirOf 204800 ⟨10, 0, none⟩ = .absent := by decide
 end ExpandCompose
 
+/-! ## F34: a delivery that trims optional white space around the error message
+
+Full statement (kept visible; proved as `expected_agrees_partial` / `populatedX_agrees_partial`):
+for every well-formed `tc` outside F07 and every transport `w` with `WireLaw tc w`,
+`agree tc.st (expected tc) (actual tc w m)`.  Its hypothesis about the transport is `WireLaw` (hypothesis
+`hw`) TOGETHER WITH the shape of the conclusion: the peers' result is `actual tc w m`, whose error is the
+definition's code / message / details whatever `w` is — the clause "error message unchanged" of the
+WireLaw assumption in checks/C02.json is built into `actual`.  gRPC-Web breaks exactly that clause for
+a message with a boundary space: `f34_witness` (agreement holds for the intact delivery, fails for the
+trimmed one, holds again for the same text without boundary spaces), `f34_outside_wire` (no transport
+`w` makes `actual` produce the trimmed delivery). -/
+/-- a gRPC-Web-like delivery: the peers' result with the optional white space around the error
+message gone (what a header-line parser makes of `grpc-message: <value>`) -/
+def trimOWS (s : String) : String := String.ofList ((s.toList.dropWhile (· == ' ')).reverse.dropWhile (· == ' ')).reverse
+def trimmedDelivery (r : Result) : Result := { r with err := r.err.map (fun e => { e with msg := e.msg.map trimOWS }) }
+
+def exF34 : TC :=
+  { st := .serverStream, reqHdrs := [], reqs := [101], fdFlag := false, udef := none,
+    get := false, codec := .proto, method := .std, explicit := none,
+    sdef := some ⟨[⟨"x-hdr-f34", ["v1"]⟩], [⟨"x-trl-f34", ["t1"]⟩], ["aa"], some ⟨9, some " lead and trail ", []⟩⟩ }
+
+theorem f34_witness :
+    WellFormed exF34 = true ∧ WireLaw exF34 (idWire exF34) = true ∧ DetailsOpaque exF34 = true ∧ isF07 exF34 = false ∧
+    agree exF34.st (expected exF34) (actual exF34 (idWire exF34) false) = true ∧
+    agree exF34.st (expected exF34) (trimmedDelivery (actual exF34 (idWire exF34) false)) = false ∧
+    agree exF34.st (expected { exF34 with sdef := some ⟨[], [], ["aa"], some ⟨9, some "lead and trail", []⟩⟩ })
+      (trimmedDelivery (actual { exF34 with sdef := some ⟨[], [], ["aa"], some ⟨9, some "lead and trail", []⟩⟩ } (idWire exF34) false)) = true := by decide
+/-- … and that delivery is outside what `expected_agrees_partial` quantifies over: its conclusion speaks
+about `actual tc w m`, in which — for EVERY transport `w` — the error message is the definition's (the
+"error code / message / details unchanged" clause of the WireLaw assumption is built into `actual`) -/
+theorem f34_outside_wire (w : Wire) (m : Bool) :
+    (actual exF34 w m).err = some ⟨9, some " lead and trail ", []⟩ ∧
+    (actual exF34 w m).err ≠ (trimmedDelivery (actual exF34 (idWire exF34) false)).err := by
+  have h : (actual exF34 w m).err = some ⟨9, some " lead and trail ", []⟩ := by
+    simp [actual, actualStream, exF34]
+  refine ⟨h, ?_⟩
+  rw [h]; decide
+
 end ConfModel.Props.C02
